@@ -296,6 +296,59 @@ where
                         lx.check(flat[j].key() == w.key(), "C14/quantile-skipnan-value", || format!("lane {}: got {:?}, plain quantile of the filtered lane gives {:?}: {}", j, flat[j], w, desc()));
                     }
                 }
+                // history: the same array, as the first call left it, is used again. The routines may permute
+                // a lane but must leave it holding the same elements, so a second skip-NaN operation sees
+                // the same data (a differential check from a non-initial state).
+                // the history check runs on a deterministic eighth of the pivot sequences (those whose pivot
+                // positions sum to a multiple of 8; the all-first sequence is one of them)
+                if nsmc::explore::current_pivots().iter().sum::<usize>() % 8 != 0 {
+                    return hash_of(&flat.iter().map(|x| x.key()).collect::<Vec<_>>());
+                }
+                // What the array holds now is the input of the second call. The references computed from the
+                // original content apply to it only if every lane still holds the same non-missing elements
+                // (that the first call merely permutes its lanes is property C03, not this one).
+                let now: Vec<A> = h.view().iter().cloned().collect();
+                let unchanged = lanes.iter().all(|lane| {
+                    sorted(lane.iter().map(|&k| now[k].key()).filter(|k| *k != i64::MIN).collect()) == sorted(lane.iter().map(|&k| logical[k].key()).filter(|k| *k != i64::MIN).collect())
+                });
+                if !unchanged {
+                    lx.skip("second call: the first call changed the non-missing content of a lane (a C03 matter); no reference for the new content");
+                    return hash_of(&flat.iter().map(|x| x.key()).collect::<Vec<_>>());
+                }
+                lx.count("executions_followed_by_a_second_call_on_the_same_array", 1);
+                let again = guarded(|| {
+                    let mut v = h.view_mut();
+                    let second = v.quantile_axis_skipnan_mut(Axis(axis), n64(q), i);
+                    let seen = v.fold_axis_skipnan(Axis(axis), Vec::<i64>::new(), |acc, x| {
+                        let mut t = acc.clone();
+                        t.push(A::from_not_nan(x.clone()).key());
+                        t
+                    });
+                    (second, seen)
+                });
+                match again {
+                    Err(m) => lx.fail("C14/second-call-panic", || format!("a second skip-NaN call on the same array panicked ({}): {}", m, desc())),
+                    Ok((second, seen)) => {
+                        match second {
+                            Ok(res2) => {
+                                let flat2: Vec<A> = res2.iter().cloned().collect();
+                                for (j, rf) in refs.iter().enumerate() {
+                                    if let (Ok(w), Some(g)) = (rf, flat2.get(j)) {
+                                        lx.check(g.key() == w.key(), "C14/second-call-value", || format!("lane {}: the same call repeated on the same array gives {:?}, the plain quantile of the filtered lane is {:?}: {}", j, g, w, desc()));
+                                    }
+                                }
+                            }
+                            Err(e) => lx.fail("C14/second-call-error", || format!("the same call repeated on the same array returned {:?}: {}", e, desc())),
+                        }
+                        let seen: Vec<Vec<i64>> = seen.iter().cloned().collect();
+                        for (j, lane) in lanes.iter().enumerate() {
+                            if let Some(g) = seen.get(j) {
+                                let w = sorted(lane.iter().map(|&k| logical[k].key()).filter(|k| *k != i64::MIN).collect());
+                                lx.check(sorted(g.clone()) == w, "C14/fold-after-quantile", || format!("lane {}: fold_axis_skipnan after the quantile call sees {:?}, the lane's non-missing elements are {:?}: {}", j, g, w, desc()));
+                            }
+                        }
+                    }
+                }
                 hash_of(&flat.iter().map(|x| x.key()).collect::<Vec<_>>())
             }
         }
